@@ -73,6 +73,78 @@ def run(verdict, scenarios, limit=None, extra_owned=()):
     return cov
 
 
+def _record_one(args):
+    import tracegen
+    import ikereplay
+    import world as wd
+    seed, depth = args
+    try:
+        return seed, tracegen.record(tracegen.TRACE_SC, seed, depth), None
+    except wd.Escape as ex:
+        return seed, None, ('escape', str(ex))
+    except ikereplay.Mismatch as mm:
+        return seed, None, (mm.component, mm.msg)
+
+
+def run_traces(verdict, n, depth):
+    """Binding B: n seeded random schedules of the two real controllers (not chosen by TLC) are recorded, one event per public call, and validated
+    by TLC against IkeTrace.tla (every invariant of Ike.tla after every event).  A rejected trace is diagnosed down to the clause of the trace
+    specification that fails and attributed to the property that owns that clause.  One deliberately corrupted trace must be rejected."""
+    import copy
+    import multiprocessing
+    import tracegen
+    prop = verdict.prop
+    seeds = [common.SEED * 100003 + 7 * i + 1 for i in range(n)]
+    with multiprocessing.Pool(min(common.NCPU, max(1, n))) as pool:
+        recs = pool.map(_record_one, [(s, depth) for s in seeds])
+    cov = {'recorded': 0, 'events': 0, 'accepted': 0, 'rejected': 0, 'rejected_elsewhere': {}, 'actions': collections.Counter()}
+    traces, tseeds = [], []
+    for seed, tr, err in recs:
+        if tr is None:
+            own = OWNER.get(err[0], 'C09')
+            if own == prop:
+                verdict.violation(f'recording a random schedule (seed {seed}): {err[0]}: {err[1]}', {'seed': seed}, signature={'component': 'trace:' + err[0]},
+                                  replay={'kind': 'trace', 'seed': seed, 'depth': depth})
+            continue
+        traces.append(tr)
+        tseeds.append(seed)
+        cov['recorded'] += 1
+        cov['events'] += len(tr)
+        for e in tr:
+            cov['actions'][e['a']] += 1
+    if traces:
+        acc, prog, res = tracegen.validate(traces)
+        if res.violated:
+            raise common.MachineryError(f'an invariant of Ike.tla fails on a recorded trace (the trace specification should have rejected the step): {res.violated}')
+        for i, (got, ln) in enumerate(prog):
+            if got == ln:
+                cov['accepted'] += 1
+                continue
+            cov['rejected'] += 1
+            clause = tracegen.diagnose(traces[i], got)
+            own = tracegen.CLAUSE_OWNER[clause]
+            ev = traces[i][got]
+            what = {k: v for k, v in ev.items() if k not in ('post', 'out')}
+            if own == prop:
+                verdict.violation(f'recorded execution (seed {tseeds[i]}) is not a behaviour of Ike.tla: event {got + 1}/{ln} {ikemodel.describe(ev) if "a" in ev else ev} '
+                                  f'fails clause "{clause}" of the trace specification', {'event': what, 'reply': ev['out'], 'post': ev['post'], 'clause': clause},
+                                  signature={'component': 'trace:' + clause, 'action': ev['a']}, replay={'kind': 'trace', 'seed': tseeds[i], 'depth': depth})
+            else:
+                cov['rejected_elsewhere'][f'{own}:{clause}'] = cov['rejected_elsewhere'].get(f'{own}:{clause}', 0) + 1
+        # the binding is not vacuous: corrupting one logged field must be rejected
+        bad = copy.deepcopy(traces[0])
+        ev = next((e for e in bad if e['post']['sas']), None)
+        if ev is not None:
+            ev['post']['sas'][0]['myMid'] += 1
+            acc2, prog2, _ = tracegen.validate([bad])
+            if acc2:
+                raise common.MachineryError('IkeTrace.tla accepted a trace with a corrupted Message ID: the trace specification does not bind')
+            cov['corrupted_trace_rejected'] = True
+    cov['actions'] = dict(cov['actions'])
+    verdict.coverage['recorded_traces'] = cov
+    return cov
+
+
 def replay_file(verdict, path):
     """./check Cxx --replay <file>: re-execute exactly the recorded behaviour prefix and print what differs."""
     import json
@@ -86,6 +158,19 @@ def replay_file(verdict, path):
         print('result:', err or 'conforms')
         if err is not None:
             verdict.violation(f'replayed: {err}', {'done': done}, signature=body.get('signature'))
+        return verdict.finish()
+    if rp.get('kind') == 'trace':
+        import tracegen
+        tr = tracegen.record(tracegen.TRACE_SC, rp['seed'], rp['depth'])
+        acc, prog, res = tracegen.validate([tr])
+        print(f'trace seed={rp["seed"]}: matched {prog[0][0]} of {prog[0][1]} events')
+        if not acc:
+            clause = tracegen.diagnose(tr, prog[0][0])
+            ev = tr[prog[0][0]]
+            print('rejected at', {k: v for k, v in ev.items() if k not in ('post',)}, 'clause', clause)
+            verdict.violation(f'replayed: recorded execution rejected at event {prog[0][0] + 1}, clause {clause}', {'clause': clause}, signature=body.get('signature'))
+        else:
+            print('conforms')
         return verdict.finish()
     if 'scenario' not in rp:
         raise common.MachineryError('this replay file does not describe a behaviour of spec/Ike.tla')
